@@ -98,6 +98,20 @@ class Chain:
         return self._l2[(n, m)]
 
 
+_CHAINS: t.Dict[t.Tuple[t.Any, ...], Chain] = {}
+
+
+def chain_cached(hash_name: str, root_key: bytes, rkid: uuid.UUID, sd: bytes, l0: int) -> Chain:
+    """memoised Chain (pure function of its arguments); bounded"""
+    k = (hash_name, root_key, rkid, sd, l0)
+    c = _CHAINS.get(k)
+    if c is None:
+        if len(_CHAINS) > 512:
+            _CHAINS.clear()
+        c = _CHAINS[k] = Chain(hash_name, root_key, rkid, sd, l0)
+    return c
+
+
 # -- secret agreement --------------------------------------------------------------------
 
 
